@@ -102,16 +102,20 @@ func concretise(cs *Case, r *rand.Rand, now int64) (*built, error) {
 	s.lpr = int64(20 + r.Intn(900))
 	s.domain = pick(r, domains)
 	s.wantDomain = s.domain
+	// the workchain of the account: mostly 0 and -1, sometimes any other int32 (the proof binds all 32 bits of it)
 	wc := int32(0)
-	if r.Intn(4) == 0 {
+	switch x := r.Intn(10); {
+	case x < 2:
 		wc = -1
+	case x < 4:
+		wc = unusualWc[r.Intn(len(unusualWc))]
 	}
 	var sub *uint32
 	if r.Intn(2) == 0 {
 		x := r.Uint32()
 		sub = &x
 	}
-	owner, err := newAcct(cs.Ver, randSeed(r), wc, sub, r)
+	owner, err := acctAt(cs.Ver, randSeed(r), wc, sub, r)
 	if err != nil {
 		return nil, err
 	}
@@ -138,8 +142,27 @@ func concretise(cs *Case, r *rand.Rand, now int64) (*built, error) {
 	switch t {
 	case "signer":
 		s.signKey, _ = keyFromSeed(randSeed(r))
+	case "sih_root_claims_victim", "sih_all_claims_victim":
+		att, err := acctAt(cs.Ver, randSeed(r), wc, sub, r)
+		if err != nil {
+			return nil, err
+		}
+		s.signKey, s.si = att.priv, att.si // the address stays the victim's; the bag will be labelled with it below
+		keys["other"] = hex.EncodeToString(att.pub)
+	case "sih_code_claims_wallet":
+		c := boc.NewCell()
+		c.WriteUint(r.Uint64(), 64)
+		s.si.Code.Value.Value = *c
+		a, err := siAddress(s.si, wc)
+		if err != nil {
+			return nil, err
+		}
+		s.addr = a
+		for i := range s.chain {
+			s.chain[i].Addr = hex.EncodeToString(a.Address[:])
+		}
 	case "si_attacker":
-		att, err := newAcct(cs.Ver, randSeed(r), wc, sub, r)
+		att, err := acctAt(cs.Ver, randSeed(r), wc, sub, r)
 		if err != nil {
 			return nil, err
 		}
@@ -255,7 +278,7 @@ func concretise(cs *Case, r *rand.Rand, now int64) (*built, error) {
 		if cs.Ver == "v4r2" {
 			ver2 = "v3r2"
 		}
-		o2, err := newAcct(ver2, owner.seed, wc, sub, r)
+		o2, err := acctAt(ver2, owner.seed, wc, sub, r)
 		if err != nil {
 			return nil, err
 		}
@@ -273,6 +296,23 @@ func concretise(cs *Case, r *rand.Rand, now int64) (*built, error) {
 		a := s.addr
 		a.Workchain = -1 - wc // 0 <-> -1
 		p.Address = a.String()
+	case "wc_plus256", "wc_minus256", "wc_plus512", "wc_plus65536", "wc_minus65536", "wc_plus16777216", "wc_int32_max", "wc_int32_min":
+		// only the workchain of the presented address changes; nothing else of the proof does
+		delta := map[string]int64{"wc_plus256": 256, "wc_minus256": -256, "wc_plus512": 512, "wc_plus65536": 65536, "wc_minus65536": -65536, "wc_plus16777216": 1 << 24}[t]
+		w2 := int64(wc) + delta
+		if w2 > 2147483647 || w2 < -2147483648 {
+			w2 = int64(wc) - delta
+		}
+		if t == "wc_int32_max" {
+			w2 = 2147483647
+			if wc == 2147483647 {
+				w2 = 2147483646
+			}
+		}
+		if t == "wc_int32_min" {
+			w2 = -2147483648
+		}
+		p.Address = fmt.Sprintf("%d:%x", w2, s.addr.Address[:])
 	case "addr_bad_hex":
 		b := []byte(p.Address)
 		b[len(b)-1-r.Intn(64)] = "gxZ "[r.Intn(4)]
@@ -292,7 +332,7 @@ func concretise(cs *Case, r *rand.Rand, now int64) (*built, error) {
 	case "payload":
 		p.Proof.Payload = s.newPayload(r, s.secret, s.pt)
 	case "si_other":
-		o3, err := newAcct(cs.Ver, randSeed(r), wc, sub, r)
+		o3, err := acctAt(cs.Ver, randSeed(r), wc, sub, r)
 		if err != nil {
 			return nil, err
 		}
@@ -300,6 +340,46 @@ func concretise(cs *Case, r *rand.Rand, now int64) (*built, error) {
 			return nil, err
 		}
 		keys["other"] = hex.EncodeToString(o3.pub)
+	case "sih_honest", "sih_root_only", "sih_root_claims_victim", "sih_all_claims_victim", "sih_wrong_root_hash", "sih_wrong_root_depth",
+		"sih_wrong_inner_hash", "sih_code_claims_wallet":
+		plain, _ := base64.StdEncoding.DecodeString(p.Proof.StateInit)
+		cells, root, err := bagCells(plain)
+		if err != nil {
+			return nil, err
+		}
+		all := func(int) bool { return true }
+		rootOnly := func(i int) bool { return i == root }
+		with, fake := all, map[int]storedHD{}
+		rnd := make([]byte, 32)
+		r.Read(rnd)
+		switch t {
+		case "sih_root_only":
+			with = rootOnly
+		case "sih_root_claims_victim":
+			with = rootOnly
+			fake[root] = storedHD{s.addr.Address[:], cells[root].depth}
+		case "sih_all_claims_victim":
+			fake[root] = storedHD{s.addr.Address[:], cells[root].depth}
+		case "sih_wrong_root_hash":
+			if r.Intn(2) == 0 {
+				with = rootOnly
+			}
+			fake[root] = storedHD{rnd, cells[root].depth}
+		case "sih_wrong_root_depth":
+			fake[root] = storedHD{cells[root].hash, cells[root].depth + 1 + r.Intn(3)}
+		case "sih_wrong_inner_hash":
+			i := (root + 1 + r.Intn(len(cells)-1)) % len(cells)
+			fake[i] = storedHD{rnd, cells[i].depth}
+		case "sih_code_claims_wallet":
+			// the code cell is the root's first reference; it is labelled with the hash of the wallet's real code
+			h, err := owner.si.Code.Value.Value.Hash()
+			if err != nil {
+				return nil, err
+			}
+			code := cells[root].refs[0]
+			fake[code] = storedHD{h, cells[code].depth}
+		}
+		p.Proof.StateInit = base64.StdEncoding.EncodeToString(writeWithHashes(cells, root, with, fake))
 	case "si_multi_root":
 		b, _ := base64.StdEncoding.DecodeString(p.Proof.StateInit)
 		c, err := boc.DeserializeBoc(b)
@@ -375,4 +455,21 @@ func runCase(cs *Case, w *ev.Writer) error {
 
 func caseLabel(cs *Case) ev.M {
 	return ev.M{"src": cs.Src, "ver": cs.Ver, "tamper": cs.Tamper, "time": cs.Time}
+}
+
+var unusualWc = []int32{1, 127, 128, 255, 256, -256, -257, 65536, -65536, 16777216, 2147483647, -2147483647}
+
+// acctAt builds a wallet for any int32 workchain: the wallet package derives parts of some contracts' data from the
+// workchain (8 bits of it), so outside -128..127 the contract is built for workchain 0 and the account placed at wc.
+func acctAt(ver string, seed []byte, wc int32, sub *uint32, r *rand.Rand) (*acct, error) {
+	build := wc
+	if wc < -128 || wc > 127 {
+		build = 0
+	}
+	a, err := newAcct(ver, seed, build, sub, r)
+	if err != nil {
+		return nil, err
+	}
+	a.wc, a.addr.Workchain = wc, wc
+	return a, nil
 }
